@@ -12,7 +12,7 @@ func init() {
 }
 
 func suiteC13Bind(cfg Config, res *Result) {
-	res.Rule = "macro signatures with 0..4 parameters, any subset with default expressions (literals and names of the defining scope) x call sites with 0..5 arguments of all scalar kinds, lists and nil x definition local / imported / imported under an alias; oracle: a reference binding (i-th argument to i-th parameter, omitted -> default or empty, too many -> execution error), literal markup in the body comes out unescaped, and imported = local; also compared with the Lean model; non-trivial = call with omitted or defaulted parameters; distinct by (signature, call)"
+	res.Rule = "macro signatures with 0..4 parameters, any subset with default expressions (literals, names of the defining scope, names that are also parameters of the macro while the caller binds them too) x call sites with 0..5 arguments of all scalar kinds, lists and nil x definition local / imported / imported under an alias; oracle: a reference binding (i-th argument to i-th parameter, omitted -> default or empty, too many -> execution error), literal markup in the body comes out unescaped, and imported = local; also compared with the Lean model; non-trivial = call with omitted or defaulted parameters; distinct by (signature, call)"
 	n := 3000
 	if cfg.Thorough() {
 		n = 60000
@@ -31,6 +31,12 @@ func suiteC13Bind(cfg Config, res *Result) {
 			params[j] = fmt.Sprintf("p%d", j)
 			if rng.Chance(2, 5) {
 				d := defPool[rng.Intn(len(defPool))]
+				if rng.Chance(1, 3) {
+					// a default naming another parameter of the same macro: defaults are evaluated in the
+					// defining scope, where that name is the caller's variable, not the parameter
+					k := rng.Intn(4)
+					d = struct{ src, val string }{fmt.Sprintf("p%d", k), fmt.Sprintf("o%d", k)}
+				}
 				sig = append(sig, params[j]+"="+d.src)
 				defVals[j] = d.val
 			} else {
@@ -63,7 +69,7 @@ func suiteC13Bind(cfg Config, res *Result) {
 			want = "ok " + hxb(w+"</m>")
 		}
 		def := "{% macro mm(" + strings.Join(sig, ", ") + ") export %}" + body + "{% endmacro %}"
-		ct := CtxTerm{Names: []string{"x", "y", "n", "l", "i"}, Vals: []VT{vStr("ctxx"), vStr("dy"), vNil(), vList("int", vInt(1)), vInt(42)}}
+		ct := CtxTerm{Names: []string{"x", "y", "n", "l", "i", "p0", "p1", "p2", "p3"}, Vals: []VT{vStr("ctxx"), vStr("dy"), vNil(), vList("int", vInt(1)), vInt(42), vStr("o0"), vStr("o1"), vStr("o2"), vStr("o3")}}
 		lbl := "full"
 		if na < np {
 			lbl = "omitted"
